@@ -3,6 +3,7 @@ package c17
 import (
 	"bytes"
 	"encoding/binary"
+	"encoding/json"
 	"fmt"
 	"hash/fnv"
 	"os"
@@ -16,6 +17,7 @@ import (
 	"github.com/go-text/typesetting/language"
 
 	"verif/internal/corpus"
+	"verif/internal/synthfont"
 	"verif/internal/textgen"
 )
 
@@ -23,8 +25,11 @@ import (
 // index), so that a saved program is replayable whatever the selection rule below becomes.
 type PoolEntry struct {
 	Kind  string `json:"kind"`
-	File  string `json:"file"`
-	Index int    `json:"index"`
+	File  string `json:"file,omitempty"`
+	Index int    `json:"index,omitempty"`
+	// Synth, when set, describes a font built in memory by internal/synthfont (stratum
+	// "synthetic"): legal but unusual layout tables that no corpus font has.
+	Synth *synthfont.Spec `json:"synth,omitempty"`
 }
 
 type axis struct {
@@ -54,6 +59,8 @@ type poolFont struct {
 	features []string   // feature tags of the font's own GSUB and GPOS
 	langs    []string   // "x-hbsc<script>-hbot<language>": the font's own script/language systems
 	tables   []tableRec // nil unless the file is a plain sfnt (single font)
+	covered  []rune     // synthetic fonts: the runes the generated lookups cover, and a few others
+	other    []rune
 }
 
 // stratum is one class of fonts; every program draws its 3–5 shared fonts from different strata.
@@ -89,7 +96,18 @@ var (
 	candidates [][]*poolFont            // per stratum; richest first
 )
 
-func entryKey(e PoolEntry) string { return fmt.Sprintf("%s#%d", e.File, e.Index) }
+func entryKey(e PoolEntry) string {
+	if e.Synth != nil {
+		b, _ := json.Marshal(e.Synth)
+		return "synthetic:" + string(b)
+	}
+	return fmt.Sprintf("%s#%d", e.File, e.Index)
+}
+
+// synthetic fonts are built on demand; only the most recent ones are kept
+const maxSynthCached = 12
+
+var synthKeys []string
 
 // parseFont parses a fresh, independent *font.Font from the bytes of a font file.
 func parseFont(data []byte, index int) (ft *font.Font, ld *ot.Loader, err error) {
@@ -153,7 +171,15 @@ func loadEntry(e PoolEntry) (*poolFont, error) {
 	if pf, ok := poolCache[entryKey(e)]; ok {
 		return pf, nil
 	}
-	data, err := corpus.Bytes(e.File)
+	var (
+		data []byte
+		err  error
+	)
+	if e.Synth != nil {
+		data, err = synthfont.Build(*e.Synth)
+	} else {
+		data, err = corpus.Bytes(e.File)
+	}
 	if err != nil {
 		return nil, err
 	}
@@ -162,6 +188,14 @@ func loadEntry(e PoolEntry) (*poolFont, error) {
 		return nil, err
 	}
 	pf := &poolFont{PoolEntry: e, data: data, ref: ft, tables: sfntDirectory(data)}
+	if e.Synth != nil {
+		pf.covered, pf.other = e.Synth.Letters()
+		synthKeys = append(synthKeys, entryKey(e))
+		if len(synthKeys) > maxSynthCached {
+			delete(poolCache, synthKeys[0])
+			synthKeys = synthKeys[1:]
+		}
+	}
 	if raw, err := ld.RawTable(ot.MustNewTag("maxp")); err == nil {
 		if maxp, _, err := tables.ParseMaxp(raw); err == nil {
 			pf.nGlyphs = int(maxp.NumGlyphs)
